@@ -91,7 +91,7 @@ func TestVerifC16Store(t *testing.T) {
 		t.Fatalf("etcd admin client: %v", err)
 	}
 	defer admin.Close()
-	n := r.N(100, 2500)
+	n := r.N(100, 2000)
 	const workers = 4
 	var wg sync.WaitGroup
 	for w := 0; w < workers; w++ {
